@@ -45,6 +45,8 @@ type mRec struct {
 }
 
 type mTimer struct {
+	id      int  // creation order
+	bound   bool // a callback goroutine has been matched to this timer
 	rec     *mRec
 	due     time.Duration
 	fired   bool
@@ -74,6 +76,7 @@ type model struct {
 	timers       []*mTimer // armed, not fired
 	fired        []*mTimer // fired, callback's critical section not yet granted
 	step         int
+	nTimers      int
 
 	// expectations produced by the last exit transition
 	expectCb    []error // errors the exit callbacks must receive, in order of exits
@@ -277,9 +280,11 @@ func (m *model) Exit(t *mTok, err error) {
 			d := m.retry[m.boIdx%len(m.retry)]
 			m.boIdx++
 			if d >= 0 {
-				tm := &mTimer{rec: rec, due: m.now() + time.Duration(d)*time.Millisecond}
+				m.nTimers++
+				tm := &mTimer{id: m.nTimers, rec: rec, due: m.now() + time.Duration(d)*time.Millisecond}
 				rec.timer = tm
 				m.timers = append(m.timers, tm)
+				m.Fire() // a zero interval has fired already: Stop can no longer recall it
 			}
 		}
 	}
@@ -319,6 +324,7 @@ func (m *model) effective(t *mTimer) bool {
 // back-off interval asked for. It reports whether the section belongs to a
 // stopped timer.
 func (m *model) TimerSection(rec *mRec) (stale bool) {
+	m.Fire() // a zero interval fires without any advance of the clock
 	pick := -1
 	for i, t := range m.fired {
 		if t.rec != rec {
@@ -346,6 +352,43 @@ func (m *model) TimerSection(rec *mRec) (stale bool) {
 		m.start(rec, true)
 	}
 	return false
+}
+
+// BindCallback matches a newly seen callback goroutine of record rec to the oldest
+// fired timer of that record that has no goroutine yet (callback goroutines are
+// created in firing order). It returns the timer id, or 0 if the machine knows
+// of no such timer.
+func (m *model) BindCallback(rec *mRec) int {
+	m.Fire()
+	for _, t := range m.fired {
+		if t.rec == rec && !t.bound {
+			t.bound = true
+			return t.id
+		}
+	}
+	return 0
+}
+
+// TimerSectionID applies the critical section of the callback of timer id.
+func (m *model) TimerSectionID(rec *mRec, id int) (stale bool) {
+	m.Fire()
+	for i, t := range m.fired {
+		if t.id != id {
+			continue
+		}
+		m.fired = append(m.fired[:i], m.fired[i+1:]...)
+		if rec.timer == t {
+			rec.timer = nil
+		}
+		if t.stopped {
+			return true
+		}
+		if m.ctxID != 0 && rec.current && (rec.status == stFailed || rec.status == stSucceeded) {
+			m.start(rec, true)
+		}
+		return false
+	}
+	return m.TimerSection(rec)
 }
 
 // returnable reports what WaitExited may return right now.
